@@ -132,6 +132,10 @@ FMT_KIND = {"monospace": "literal", "emphasis": "emphasis", "strong": "strong", 
 WORDS = ["alpha", "beta", "gamma", "delta", "epsilon", "Zeta", "eta", "Theta", "iota", "kappa", "lambda", "omega",
          "node", "graph", "query", "index", "shard", "replica", "The", "of", "and", "naïve", "日本語", "Ωmega", "to",
          "data42", "re-use", "it's", "a/b", "x=1", "50%", "(see", "this)", "done.", "yes,", "why?", "wow!"]
+# character data that LOOKS like the start of inline markup but is not, by the recognition rules of the markup (a start-string
+# that is quoted or bracketed, followed by whitespace, or inside a word): it stays plain text, in place, also when real markup follows
+REJECTED_STARTS = ['"*"', "(*)", "2 * 3", "'`'", '"`"', "a*b", '"**"', "(**)", "(|)", '"|"', "'*'", "[*]", "<*>", "{*}", "* *", '"_"', "a_b",
+                   "*", "**", "2*3*4", "«*»", "'_'", "(`)", "(*", '"*', "||", "'|'", "a|b", "`"]
 SAFE_START = ["alpha", "beta", "gamma", "Theta", "node", "graph", "query", "The", "shard", "omega", "naïve", "Ωmega"]
 TITLE_WORDS = ["Intro", "Setup", "Usage", "Details", "Advanced", "Notes", "Reference", "Overview", "Part", "Guide", "naïve"]
 FOOT_NAMES = ["note", "fn-two", "caveat1"]
@@ -247,6 +251,10 @@ class Gen:
                 xs.append(inl_text(rng.choice(["beta", "y", ""])))
                 if xs[-1]["s"] == "":
                     xs.pop()
+            elif r > 0.93:
+                xs.append(inl_text(rng.choice(REJECTED_STARTS)))
+                xs.append({"k": "sp"})
+                xs.append(inl_text(rng.choice(SAFE_START)))
             else:
                 xs.append(inl_text(rng.choice(WORDS)))
         return xs
@@ -325,6 +333,21 @@ class Gen:
                     val = str(val)
                 blk["opts"].append([oname, raw, val])
         if d["body"] and (rng.random() < 0.85 or not (blk["arg"] or blk["opts"])):
+            blk["kids"] = self.body(depth + 1, rng.randint(1, 2))
+        return blk
+
+    def directive_ml(self, depth):
+        """a directive without options whose argument runs over two or more lines: the parser re-parses the argument as the first
+        paragraph of the body, which therefore starts ON the directive's own line"""
+        rng = self.rng
+        cands = [d for d in self.t["dirs"] if d["body"] and d["arg"] != "required" and not any(o["required"] for o in d["opts"].values())]
+        d = rng.choice(cands)
+        xs = self.inlines(allow_nl=False, rich=rng.random() < 0.4, lo=0, hi=3)
+        for _ in range(rng.choice([1, 1, 2])):
+            xs.append({"k": "nl"})
+            xs += self.inlines(allow_nl=False, rich=rng.random() < 0.4, lo=0, hi=3)
+        blk = {"k": "directiveML", "name": d["name"], "domain": d["domain"], "arg": xs, "kids": []}
+        if rng.random() < 0.6:
             blk["kids"] = self.body(depth + 1, rng.randint(1, 2))
         return blk
 
@@ -437,7 +460,9 @@ class Gen:
             elif k == "label":
                 out.append(self.label())
             elif k == "directive":
-                out.append(self.structured(depth) if (depth < 2 and rng.random() < 0.2) else self.directive(depth))
+                r = rng.random()
+                out.append(self.structured(depth) if (depth < 2 and r < 0.2) else
+                           (self.directive_ml(depth) if r < 0.32 else self.directive(depth)))
             elif k == "footnote":
                 self.nfoot = getattr(self, "nfoot", 0) + 1
                 my = self.nfoot
